@@ -308,9 +308,86 @@ let hml_inst (c : case) : HmlDefs.state inst =
     pctag = simple_pctag (fun st -> st.th);
     nm }
 
+(* ---------------------------------------------------------------- harris_michael_list_based_set with iterator operations (C09) *)
+let hmlit_inst (c : case) : HmlItDefs.xstate inst =
+  let open HmlItDefs in
+  let pos = function [0] -> "end" | [1; k] -> string_of_int k | _ -> "?" in
+  let nm = {
+    named = (fun _ -> "?");
+    opname = (function 0 -> "ins" | 1 -> "del" | 2 -> "has" | 3 -> "itb" | 4 -> "itf" | 5 -> "itn" | 6 -> "itd" | 7 -> "ite" | 8 -> "itr" | _ -> "?");
+    resname = (fun r -> match List.map int_of_n r with
+      | [0; 1] -> "new" | [0; 0] -> "old" | [1; 1] -> "ok" | [1; 0] -> "no" | [2; 1] -> "yes" | [2; 0] -> "no"
+      | [7; 0] -> "end" | 7 :: 1 :: was :: p -> string_of_int was ^ ">" ^ pos p
+      | [8] -> "ok"
+      | (3 | 4 | 5 | 6) :: p -> pos p
+      | _ -> "?");
+    note = (fun code args -> match code, args with 120, [h] -> Some ("RETIRE h" ^ string_of_n h ^ "+0") | _ -> None);
+  } in
+  let tag p = if Obj.is_int (Obj.repr p) then "i" ^ string_of_int (Obj.magic p : int) else string_of_int (Obj.tag (Obj.repr p)) in
+  { init = HmlItDefs.xinit;
+    idle = (fun st t -> match st.ith (nat_of_int t), st.base.HmlDefs.th (nat_of_int t) with IIdle, HmlDefs.Idle -> true | _ -> false);
+    start = (fun st t (name, args) ->
+      let k = match args with v :: _ -> n_of_string v | [] -> n_of_int 0 in
+      let o = match name with
+        | "ins" -> OBase (HmlDefs.OIns k) | "del" -> OBase (HmlDefs.ODel k) | "has" -> OBase (HmlDefs.OHas k)
+        | "itb" -> OItB | "itf" -> OItF k | "itn" -> OItN | "itd" -> OItD | "ite" -> OItE | _ -> OItR in
+      match HmlItDefs.xstep st (XStart (nat_of_int t, o)) with Some (s', _) -> Some s' | None -> None);
+    step = (fun st t _ -> HmlItDefs.xstep st (XStep (nat_of_int t)));
+    pctag = (fun st t -> "x" ^ tag (st.ith (nat_of_int t)) ^ "b" ^ tag (st.base.HmlDefs.th (nat_of_int t)));
+    nm }
+
+(* ---------------------------------------------------------------- epoch_based reclaimer with the generic client (C01/C02) *)
+let ebr_pctag th st t = let p = th st (nat_of_int t) in if Obj.is_int (Obj.repr p) then "i" ^ string_of_int (Obj.magic p : int) else string_of_int (Obj.tag (Obj.repr p))
+let ebr_inst (c : case) : EbrDefs.state inst =
+  let open EbrDefs in
+  let ncells = n_of_int (int_of_string (cfg_get c "cells" "2")) in
+  let nslots = nat_of_int (int_of_string (cfg_get c "slots" "3")) in
+  let nm = {
+    named = (fun i -> if i = 0 then "tbl_head" else if i = 1 then "global_epoch" else if i < 5 then "orphan" ^ string_of_int (i - 2) else "cell" ^ string_of_int (i - 10));
+    opname = (function 0 -> "repl" | 1 -> "clear" | 2 -> "read" | 3 -> "hold" | 4 -> "drop" | 5 -> "deref" | _ -> "?");
+    resname = (fun r -> match List.map int_of_n r with [0] -> "ok" | [1] -> "lost" | [2] -> "null" | [3; _] -> string_of_n (List.nth r 1) | _ -> "?");
+    note = no_note } in
+  { init = EbrDefs.init ncells;
+    idle = (fun st t -> match st.th (nat_of_int t) with Idle -> true | _ -> false);
+    start = (fun st t (name, args) ->
+      let n i = n_of_string (List.nth args i) and s i = nat_of_int (int_of_string (List.nth args i)) in
+      let o = match name with
+        | "repl" -> ORepl (n 0) | "clear" -> OClear (n 0) | "read" -> ORead (n 0) | "hold" -> OHold (n 0, s 1)
+        | "drop" -> ODrop (s 0) | "deref" -> ODeref (s 0) | _ -> OExit in
+      match EbrDefs.step nslots st (Start (nat_of_int t, o)) with Some (s', _) -> Some s' | None -> None);
+    step = (fun st t _ -> EbrDefs.step nslots st (Step (nat_of_int t)));
+    pctag = ebr_pctag (fun st -> st.th); nm }
+(* the end of a thread's program is its exit: thread_local destruction has no START event *)
+let ebr_with_exit (c : case) = { c with prog = Array.mapi (fun i ops -> if i = 0 then ops else ops @ [("exit", [])]) c.prog }
+
+(* ---------------------------------------------------------------- hazard_pointer (C01, C02) *)
+let hp_inst (c : case) : HpDefs.state inst =
+  let open HpDefs in
+  let ncells = nat_of_int (int_of_string (cfg_get c "cells" "2")) in
+  let nslots = nat_of_int (int_of_string (cfg_get c "slots" "3")) in
+  let nat_of_string s = nat_of_int (int_of_string s) in
+  let nm = {
+    named = (fun i -> if i = 0 then "tbl_head" else if i = 1 then "nact" else if i = 2 then "abandoned" else "cell" ^ string_of_int (i - 10));
+    opname = (function 0 -> "repl" | 1 -> "clear" | 2 -> "read" | 3 -> "hold" | 4 -> "deref" | 5 -> "drop" | 6 -> "exit" | _ -> "?");
+    resname = (fun r -> match List.map int_of_n r with [0] -> "ok" | [1] -> "lost" | [2] -> "null" | [3; _] -> string_of_n (List.nth r 1) | [4] -> "throw" | _ -> "?");
+    note = no_note;
+  } in
+  { init = HpDefs.init ncells;
+    idle = (fun st t -> match st.th (nat_of_int t) with Idle -> true | _ -> false);
+    start = (fun st t (name, args) ->
+      let o = match name, args with
+        | "repl", [x] -> ORepl (nat_of_string x) | "clear", [x] -> OClear (nat_of_string x) | "read", [x] -> ORead (nat_of_string x)
+        | "hold", [x; g] -> OHold (nat_of_string x, nat_of_string g) | "deref", [g] -> ODeref (nat_of_string g)
+        | "drop", [g] -> ODrop (nat_of_string g) | _ -> OExit in
+      match HpDefs.step nslots st (Start (nat_of_int t, o)) with Some (s', _) -> Some s' | None -> None);
+    step = (fun st t _ -> HpDefs.step nslots st (Step (nat_of_int t)));
+    pctag = simple_pctag (fun st -> st.th);
+    nm }
+
 let () =
   let model = Sys.argv.(1) and cmd = Sys.argv.(2) and path = Sys.argv.(3) in
   let c = parse_case path in
+  let c = if model = "ebr" then ebr_with_exit c else c in
   let go inst =
     match cmd with
     | "run" ->
@@ -337,4 +414,7 @@ let () =
   | "msq" -> go (msq_inst c)
   | "tbl" -> go (tbl_inst c)
   | "hml" -> go (hml_inst c)
+  | "hmlit" -> go (hmlit_inst c)
+  | "ebr" -> go (ebr_inst c)
+  | "hp" -> go (hp_inst c)
   | _ -> prerr_endline ("unknown model " ^ model); exit 2
